@@ -838,7 +838,15 @@ def evaluate(case, st_, excuse=(), size_guard=True):
     info = {'classes': [], 'nontrivial': False}
     env = Env(case)
     try:
-        tasks = env.build()
+        try:
+            tasks = env.build()
+        except ValueError as ex:
+            if 'cannot transform' not in str(ex):
+                raise
+            # intersection/difference coverages that yield a GeometryCollection (polygons touching along a line) cannot
+            # be brought into another SRS by the loader: the seed configuration is refused, there is no task to judge
+            st_.excluded['loader-refuses-coverage(%s)' % ex] += 1
+            return out, None
         if not tasks:
             raise core.HarnessError('configuration produced no seed task')
         pyrs, covs, Es = [], [], []
